@@ -12,7 +12,7 @@ THEOREMS = ['C03_chain_spec', 'C03_chain_assert', 'C03_lalr_filters_copy', 'C03_
             'C03_cyk_engine_to_cnf', 'C03_find_rule_size', 'C03_maybe_untaken',
             'C03_example_rule', 'C03_example_size', 'C03_example_derivation', 'C03_conditions_are_source',
             'C03_value_stack_driver', 'C03_resolve_walk_callbacks', 'C03_engines_agree', 'C03_engines_example']
-GEN_DEPS = ['ShapeHoles']
+GEN_DEPS = ['ShapeHoles', 'ForestSortKey']
 RULE = ('(a) random compiled-rule records (0-5 symbols, terminals/rules, `_` names, filter_out, alias, template source, '
         'keep_all_tokens, expand1, empty_indices incl. inconsistent ones) x maybe_placeholders x ambiguous: the wrapper '
         'chain lark built (classes, to_include, append_none) and the result / exception of calling lark\'s real callback '
